@@ -565,6 +565,7 @@ func (m *Memberlist) Ping(node string, addr net.Addr) (time.Duration, error) {
 func (m *Memberlist) resetNodes() {
 	m.nodeLock.Lock()
 	defer m.nodeLock.Unlock()
+	defer m.vop("reap")()
 
 	// Move dead nodes, but respect gossip to the dead interval
 	deadIdx := moveDeadNodes(m.nodes, m.config.GossipToTheDeadTime)
@@ -933,6 +934,7 @@ func (m *Memberlist) refute(me *nodeState, accusedInc uint32) {
 		},
 	}
 	m.encodeAndBroadcast(me.Addr.String(), aliveMsg, a)
+	m.vt("refute", accusedInc, inc)
 }
 
 // aliveNode is invoked by the network layer when we get a message about a
@@ -940,6 +942,7 @@ func (m *Memberlist) refute(me *nodeState, accusedInc uint32) {
 func (m *Memberlist) aliveNode(a *alive, notify chan struct{}, bootstrap bool) {
 	m.nodeLock.Lock()
 	defer m.nodeLock.Unlock()
+	defer m.vop("alive", a, bootstrap, notify != nil)()
 	state, ok := m.nodeMap[a.Node]
 
 	// It is possible that during a Leave(), there is already an aliveMsg
@@ -1157,6 +1160,7 @@ func (m *Memberlist) aliveNode(a *alive, notify chan struct{}, bootstrap bool) {
 func (m *Memberlist) suspectNode(s *suspect) {
 	m.nodeLock.Lock()
 	defer m.nodeLock.Unlock()
+	defer m.vop("suspect", s)()
 	state, ok := m.nodeMap[s.Node]
 
 	// If we've never heard about this node before, ignore it
@@ -1229,6 +1233,7 @@ func (m *Memberlist) suspectNode(s *suspect) {
 		if timeout {
 			d = &dead{Incarnation: state.Incarnation, Node: state.Name, From: m.config.Name}
 		}
+		m.vt("timerfire", s.Node, timeout, numConfirmations)
 		m.nodeLock.Unlock()
 
 		if timeout {
@@ -1250,6 +1255,7 @@ func (m *Memberlist) suspectNode(s *suspect) {
 func (m *Memberlist) deadNode(d *dead) {
 	m.nodeLock.Lock()
 	defer m.nodeLock.Unlock()
+	defer m.vop("dead", d)()
 	state, ok := m.nodeMap[d.Node]
 
 	// If we've never heard about this node before, ignore it
@@ -1310,6 +1316,7 @@ func (m *Memberlist) deadNode(d *dead) {
 // state transfer
 func (m *Memberlist) mergeState(remote []pushNodeState) {
 	for _, r := range remote {
+		m.vt("merge.entry", r.Name, int(r.State))
 		switch r.State {
 		case StateAlive:
 			a := alive{
@@ -1334,4 +1341,5 @@ func (m *Memberlist) mergeState(remote []pushNodeState) {
 			m.suspectNode(&s)
 		}
 	}
+	m.vt("merge.done")
 }
